@@ -51,6 +51,9 @@ func (x *gtr) sigMethod(s *gscope, recv cellID, name string, c *ast.CallExpr) ([
 	switch rv.t.k {
 	case gS:
 		switch name {
+		case "Equal":
+			x.nargs(c, 1)
+			return []*gv{{t: &gtype{k: gBool}, term: fmt.Sprintf("(%s == %s)", rv.term, x.ptrArg(s, c.Args[0], gS).term)}}, true
 		case "Inverse":
 			x.nargs(c, 1)
 			x.setLeaf(recv, gparen(x.ptrArg(s, c.Args[0], gS).term)+"⁻¹")
@@ -314,6 +317,18 @@ func (x *gtr) sigCall(s *gscope, c *ast.CallExpr) ([]*gv, bool) {
 		src := x.bytesArg(s, args[1])
 		x.setLeaf(dst, fmt.Sprintf("copyBytes %s %s", gparen(x.store[dst].term), gparen(src.term)))
 		return []*gv{{t: &gtype{k: gInt}, term: "(0 : Int)"}}, true // the count is not modelled (never used)
+	}
+	if id, ok := c.Fun.(*ast.Ident); ok && id.Name == "getIthRootOne" {
+		if _, ok := x.p.uninterp[id.Name]; ok {
+			// NOT looked into: PARAMETERS ithRootOne : Int → S (a generator of the t-th roots of unity) and ithRootOneErr : Int → Bool (t ∤ r − 1)
+			x.nargs(c, 1)
+			t := x.staticInt(s, c.Args[0])
+			x.need("ithRootOne", "Int → S", false)
+			x.need("ithRootOneErr", "Int → Bool", false)
+			n := x.fresh("omega")
+			x.lines = append(x.lines, fmt.Sprintf("let %s : S := ithRootOne (%d : Int)", n, t))
+			return []*gv{{t: &gtype{k: gS}, term: n}, {t: &gtype{k: gErr}, cond: fmt.Sprintf("(ithRootOneErr (%d : Int))", t), term: "(Res.err \"ErrRootsOne\")"}}, true
+		}
 	}
 	if id, ok := c.Fun.(*ast.Ident); ok {
 		if typ, ok := x.p.uninterp[id.Name]; ok {
